@@ -49,6 +49,7 @@ class Den:
     def __init__(self, eng, p):
         self.eng, self.p = eng, p
         self.vals = {}
+        self.ops = []
         self.laws = []
         self.bound = {}
 
@@ -70,6 +71,12 @@ class Den:
             v = ('BV', sym._znum(s[1]), x)
         else:
             v = ('U', z3.Const(f'val_{name}', U))
+        # structurally equal operands denote the same value
+        for (other, ov) in self.ops:
+            if ov[0] == v[0]:
+                same_struct = nm.S(other) == nm.S(n)
+                self.p.assume(z3.Implies(same_struct, self.same(ov, v)))
+        self.ops.append((n, v))
         self.vals[key] = v
         return v
 
@@ -272,6 +279,28 @@ def schemas():  # noqa: C901
     S['BVDoubleNegation[bvnot]'] = ('bv', dneg('bvnot'))
     S['BVDoubleNegation[bvneg]'] = ('bv', dneg('bvneg'))
 
+    def mixed(outer, inner):
+        def b(c):
+            w = c.fresh_pos('w')
+            return c.node(outer, c.node(inner, c.operand(c.BV(w))))
+        return b
+
+    # near misses: to be rejected by the filter or rewritten correctly
+    S['BVDoubleNegation[bvnot,bvneg]?'] = ('bv', mixed('bvnot', 'bvneg'))
+    S['BVDoubleNegation[bvneg,bvnot]?'] = ('bv', mixed('bvneg', 'bvnot'))
+
+    def nand2(c):
+        w = c.fresh_pos('w')
+        return c.node('bvnand', c.operand(c.BV(w)), c.operand(c.BV(w)))
+
+    S['BVReflexiveNand[x,y]?'] = ('bv', nand2)
+
+    def ite_swapped(c):
+        x, y, w = bvpair(c)
+        return c.node('ite', c.node('=', x, y), '#b0', '#b1')
+
+    S['BVIteToBVComp[swapped]?'] = ('bv', ite_swapped)
+
     def nand(c):
         w = c.fresh_pos('w')
         x = c.operand(c.BV(w))
@@ -357,7 +386,7 @@ MUT_CLASS = {
 def make_run(name, theory, builder):
     cname = MUT_CLASS[name.split('[')[0]]
 
-    def run(eng, p):
+    def run(eng, p):  # noqa: C901
         c = Ctx(eng, p)
         term = builder(c)
         sm = install_tables(eng, c, term)
@@ -412,7 +441,7 @@ def make_run(name, theory, builder):
                      info={'lhs': nm.render(term), 'rhs': nm.render(repl),
                            'signature': f'{name}: replacement differs in '
                            'sort or value'})
-        if props:
+        if props and not name.endswith('?'):
             p.oblige(f'{N}/accepted-and-rewritten-on-some-path', False,
                      kind='cover')
 
